@@ -25,6 +25,15 @@ Proof.
   - apply Nat.ltb_ge in E. rewrite (binomial_gt j (S s)) by lia. replace (j - s)%nat with 0%nat by lia. cbn [binomial]. lia.
 Qed.
 
+(* (n+1-s) C(n+1,s) = (n+1) C(n,s) *)
+Lemma binomial_absorb_C n s : ((S n - s) * binomial (S n) s = S n * binomial n s)%nat.
+Proof.
+  destruct s as [|s]; [rewrite !binomial_n0; lia|]. cbn [binomial]. pose proof (binomial_absorb n s) as A.
+  destruct (Nat.leb s n) eqn:E.
+  - apply Nat.leb_le in E. replace (S n - S s)%nat with (n - s)%nat by lia. nia.
+  - apply Nat.leb_gt in E. rewrite (binomial_gt n (S s)) by lia. rewrite (binomial_gt n s) in * by lia. replace (S n - S s)%nat with 0%nat by lia. lia.
+Qed.
+
 Lemma sumn_sumQ n f : sumn n f = sumQ (map f (seq 0 n)). Proof. reflexivity. Qed.
 Lemma csum_lin4 a1 a2 a3 a4 f1 f2 f3 f4 cs k :
   a1 * csum f1 cs k + a2 * csum f2 cs k + a3 * csum f3 cs k + a4 * csum f4 cs k
@@ -124,9 +133,7 @@ Proof.
     rewrite Qmult_1_l. apply csum_ext. intros j _. rewrite sumn_sumQ, <- ICP.sumQ_map_scal. apply ICP.sumQ_map_ext. intros; ring.
 Qed.
 
-Hypothesis Hth : ~ theta == 0.
 Let w := y + z.
-Hypothesis Hw : ~ w == 0.
 
 Lemma Tr_split j s i : Tr x y z j s i == Qnat (binomial j s) * pw x s * Tk y z (j - s) i.
 Proof. unfold Tr, Tk. rewrite Qnat_mul. ring. Qed.
@@ -140,45 +147,43 @@ Proof.
   - intros s Hs'. rewrite (sumn_ext K _ (fun i => Qnat (binomial j s) * pw x s * Tk y z (j - s) i)) by (intros; apply Tr_split).
     rewrite sumn_scal, sumn_sumQ, (moment0 y z w (Qeq_refl _)) by lia. unfold Tk. ring.
 Qed.
-Lemma tmoment1 j : (j < K)%nat -> theta * sumn2 K K (fun s i => Qnat s * Tr x y z j s i) == Qnat j * x * pw theta j.
+Lemma tmoment1 j : (j < K)%nat -> sumn2 K K (fun s i => Qnat s * Tr x y z j s i) == x * dpw theta j.
 Proof.
   intros Hj. destruct xyz_vals as (_ & _ & Hs & _).
   unfold sumn2. rewrite (sumn_ext K _ (fun s => Qnat s * Tk x w j s)).
-  - rewrite sumn_sumQ. apply (moment1 x w theta); [unfold w; rewrite <- Hs; ring|exact Hj].
+  - rewrite sumn_sumQ. apply (moment1u x w theta); [unfold w; rewrite <- Hs; ring|exact Hj].
   - intros s Hs'. rewrite (sumn_ext K _ (fun i => Qnat s * (Qnat (binomial j s) * pw x s) * Tk y z (j - s) i)) by (intros; rewrite Tr_split; ring).
     rewrite sumn_scal, sumn_sumQ, (moment0 y z w (Qeq_refl _)) by lia. unfold Tk. ring.
 Qed.
-Lemma tmoment2 j : (j < K)%nat ->
-  theta * theta * sumn2 K K (fun s i => Qnat i * Qnat s * Tr x y z j s i) == Qnat j * (Qnat j - 1) * (x * y) * pw theta j.
+(* mixed moment: sum_s s C(j,s) x^s (j-s) w^(j-s-1) = j (j-1) x theta^(j-2) *)
+Lemma mixed_moment j : (j < K)%nat ->
+  sumQ (map (fun s => Qnat s * (Qnat (binomial j s) * pw x s) * dpw w (j - s)) (seq 0 K)) == x * ddpw theta j.
 Proof.
   intros Hj. destruct xyz_vals as (_ & _ & Hs & _).
   assert (Hxw : x + w == theta) by (unfold w; rewrite <- Hs; ring).
-  apply (Qmult_inj_l _ _ w Hw).
-  unfold sumn2.
-  (* inner sums: w * sum_i i T = (j-s) y w^(j-s) *)
-  assert (Hin : forall s, (s < K)%nat ->
-     w * sumn K (fun i => Qnat i * Qnat s * Tr x y z j s i) == y * (Qnat s * (Qnat j - Qnat s) * Tk x w j s)).
-  { intros s Hs'. rewrite (sumn_ext K _ (fun i => (Qnat s * (Qnat (binomial j s) * pw x s)) * (Qnat i * Tk y z (j - s) i))) by (intros; rewrite Tr_split; ring).
-    rewrite sumn_scal, sumn_sumQ.
-    setoid_replace (w * (Qnat s * (Qnat (binomial j s) * pw x s) * sumQ (map (fun i => Qnat i * Tk y z (j - s) i) (seq 0 K))))
-      with (Qnat s * (Qnat (binomial j s) * pw x s) * (w * sumQ (map (fun i => Qnat i * Tk y z (j - s) i) (seq 0 K)))) by ring.
-    rewrite (moment1 y z w (Qeq_refl _)) by lia. unfold Tk.
-    destruct (Nat.leb s j) eqn:E.
-    - apply Nat.leb_le in E. replace (Qnat j - Qnat s) with (Qnat j - Qnat s) by reflexivity.
-      assert (HQ : Qnat (j - s) == Qnat j - Qnat s) by (pose proof (Qnat_add (j - s) s) as HA; replace (j - s + s)%nat with j in HA by lia; rewrite HA; ring).
-      rewrite HQ. ring.
-    - apply Nat.leb_gt in E. rewrite (binomial_gt j s E). change (Qnat 0) with 0. ring. }
-  setoid_replace (w * (theta * theta * sumn K (fun s => sumn K (fun i => Qnat i * Qnat s * Tr x y z j s i))))
-    with (theta * theta * sumn K (fun s => w * sumn K (fun i => Qnat i * Qnat s * Tr x y z j s i))) by (rewrite sumn_scal; ring).
-  rewrite (sumn_ext K _ (fun s => y * (Qnat s * (Qnat j - Qnat s) * Tk x w j s))) by exact Hin.
-  rewrite sumn_scal.
-  rewrite (sumn_ext K _ (fun s => (Qnat j - 1) * (Qnat s * Tk x w j s) - Qnat s * (Qnat s - 1) * Tk x w j s)) by (intros; ring).
-  rewrite sumn_sub, sumn_scal, !sumn_sumQ.
-  pose proof (moment1 x w theta Hxw j K Hj) as M1. pose proof (moment2 x w theta Hxw j K Hj) as M2.
-  set (A1 := sumQ (map (fun i => Qnat i * Tk x w j i) (seq 0 K))) in *.
-  set (A2 := sumQ (map (fun i => Qnat i * (Qnat i - 1) * Tk x w j i) (seq 0 K))) in *.
-  setoid_replace (theta * theta * (y * ((Qnat j - 1) * A1 - A2))) with (y * ((Qnat j - 1) * theta * (theta * A1) - theta * theta * A2)) by ring.
-  rewrite M1, M2. rewrite <- Hxw. ring.
+  destruct j as [|j'].
+  - cbn [ddpw]. rewrite ICP.sumQ_map_zero; [ring|]. intros s _. cbn [minus dpw]. ring.
+  - rewrite (ICP.sumQ_map_ext _ (fun s => Qnat (S j') * (Qnat s * Tk x w j' s))).
+    + rewrite ICP.sumQ_map_scal, (moment1u x w theta Hxw j' K) by lia.
+      destruct j' as [|m]; cbn [dpw ddpw]; ring.
+    + intros s _. unfold Tk. destruct (Nat.leb s j') eqn:E.
+      * apply Nat.leb_le in E. replace (S j' - s)%nat with (S (j' - s)) by lia. cbn [dpw].
+        pose proof (binomial_absorb_C j' s) as C1. replace (S j' - s)%nat with (S (j' - s)) in C1 by lia.
+        assert (C2 : Qnat (S (j' - s)) * Qnat (binomial (S j') s) == Qnat (S j') * Qnat (binomial j' s)) by (rewrite <- !Qnat_mul, C1; reflexivity).
+        setoid_replace (Qnat s * (Qnat (binomial (S j') s) * pw x s) * (Qnat (S (j' - s)) * pw w (j' - s)))
+          with (Qnat s * (Qnat (S (j' - s)) * Qnat (binomial (S j') s)) * pw x s * pw w (j' - s)) by ring.
+        rewrite C2. ring.
+      * apply Nat.leb_gt in E. rewrite (binomial_gt j' s E). destruct (Nat.eqb s (S j')) eqn:E2.
+        -- apply Nat.eqb_eq in E2. subst s. rewrite Nat.sub_diag. cbn [dpw]. change (Qnat 0) with 0. ring.
+        -- apply Nat.eqb_neq in E2. rewrite (binomial_gt (S j') s) by lia. change (Qnat 0) with 0. ring.
+Qed.
+Lemma tmoment2 j : (j < K)%nat -> sumn2 K K (fun s i => Qnat i * Qnat s * Tr x y z j s i) == x * y * ddpw theta j.
+Proof.
+  intros Hj. unfold sumn2.
+  rewrite (sumn_ext K _ (fun s => y * (Qnat s * (Qnat (binomial j s) * pw x s) * dpw w (j - s)))).
+  - rewrite sumn_scal, sumn_sumQ, (mixed_moment j Hj). ring.
+  - intros s Hs'. rewrite (sumn_ext K _ (fun i => (Qnat s * (Qnat (binomial j s) * pw x s)) * (Qnat i * Tk y z (j - s) i))) by (intros; rewrite Tr_split; ring).
+    rewrite sumn_scal, sumn_sumQ, (moment1u y z w (Qeq_refl _)) by lia. ring.
 Qed.
 
 Lemma S2_moment0 : sumn2 K K Sv == N * peval c theta.
@@ -190,22 +195,15 @@ Proof.
 Qed.
 Lemma S2_moment1 : sumn2 K K (fun s i => Qnat s * Sv s i) == N * x * a theta.
 Proof.
-  apply (Qmult_inj_l _ _ theta Hth). rewrite sumS2.
-  setoid_replace (theta * (N * csum (fun j => sumn2 K K (fun s i => Qnat s * Tr x y z j s i)) c 0))
-    with (N * csum (fun j => theta * sumn2 K K (fun s i => Qnat s * Tr x y z j s i)) c 0) by (rewrite csum_scal; ring).
-  rewrite (csum_ext _ (fun j => x * (Qnat j * pw theta j))).
-  - rewrite csum_scal. destruct (csum_pw theta c 0) as (_ & E & _). rewrite E, pw_0, pderiv_from_0. ring.
-  - intros j Hj. cbn [plus]. rewrite (tmoment1 j Hj). ring.
+  rewrite sumS2. rewrite (csum_ext _ (fun j => x * dpw theta j)) by (intros j Hj; cbn [plus]; apply (tmoment1 j Hj)).
+  rewrite csum_scal, csum_dpw. ring.
 Qed.
 Lemma S2_moment2 : sumn2 K K (fun s i => Qnat i * Qnat s * Sv s i) == N * (x * y) * b theta.
 Proof.
-  apply (Qmult_inj_l _ _ (theta * theta)); [intro H; apply Hth; apply Qmult_integral in H; tauto|]. rewrite sumS2.
-  setoid_replace (theta * theta * (N * csum (fun j => sumn2 K K (fun s i => Qnat i * Qnat s * Tr x y z j s i)) c 0))
-    with (N * csum (fun j => theta * theta * sumn2 K K (fun s i => Qnat i * Qnat s * Tr x y z j s i)) c 0) by (rewrite csum_scal; ring).
-  rewrite (csum_ext _ (fun j => (x * y) * (Qnat j * (Qnat j - 1) * pw theta j))).
-  - rewrite csum_scal. destruct (csum_pw theta c 0) as (_ & _ & E). rewrite E, pw_0, pdd_from_0. ring.
-  - intros j Hj. cbn [plus]. rewrite (tmoment2 j Hj). ring.
+  rewrite sumS2. rewrite (csum_ext _ (fun j => x * y * ddpw theta j)) by (intros j Hj; cbn [plus]; apply (tmoment2 j Hj)).
+  rewrite csum_scal, csum_ddpw. ring.
 Qed.
+
 (* the state Phi_ed(theta, R) as the model's accessors see it *)
 Lemma er_S_Phi R s i : (s < K)%nat -> (i < K)%nat -> er_S (Phi_ed c N tau g phiS0 phiR0 theta R) K s i = Sv s i.
 Proof.
@@ -312,17 +310,16 @@ From EoNV Require Import Rhs2 Rhs2GenP.
 Lemma Phi_ed_length c N tau g phiS0 phiR0 theta R :
   length (Phi_ed c N tau g phiS0 phiR0 theta R) = (length c * length c + 1)%nat.
 Proof. unfold Phi_ed. rewrite app_length, Ssi_eval, tab2_length. reflexivity. Qed.
-Lemma ebcm_to_ed_generated c t N tau g phiS0 phiR0 (ps psP : Q -> Q) theta :
-  ~ theta == 0 -> ~ peval (phiI_p c tau g phiS0 phiR0) theta + peval (phiR_p tau g phiR0) theta == 0 -> forall R,
+Lemma ebcm_to_ed_generated c t N tau g phiS0 phiR0 (ps psP : Q -> Q) theta R :
   ps theta == peval c theta -> psP theta == D c theta -> psP 1 == D c 1 ->
   ~ tau == 0 -> ~ N == 0 -> ~ peval (phiS_p c phiS0) theta == 0 -> ~ D c theta == 0 -> ~ D c 1 == 0 ->
   let e := dEBCM [theta; R] t N tau g ps psP phiS0 phiR0 in
   veq (g_dSIR_effective_degree (Phi_ed c N tau g phiS0 phiR0 theta R) t N (length c, length c) tau g)
       (DPhi_ed c N tau g phiS0 phiR0 theta (vnth 0 e) (vnth 1 e)).
 Proof.
-  intros Hth Hw R E0 E1 E11 Ht HN Hx Ha Hc. cbv zeta.
+  intros E0 E1 E11 Ht HN Hx Ha Hc. cbv zeta.
   etransitivity; [apply gen_dSIR_effective_degree, Phi_ed_length|].
-  apply (ebcm_to_ed c t N tau g phiS0 phiR0 ps psP theta Hth Hw R); assumption.
+  apply (ebcm_to_ed c t N tau g phiS0 phiR0 ps psP theta R); assumption.
 Qed.
 
 (* the compact effective degree and effective degree identities with the closures the wrappers pass *)
@@ -331,16 +328,14 @@ Lemma effective_degree_from_graph g rho_opt t tau gam theta R :
   wf_ugraph g = true ->
   let r := rho_or_default g rho_opt in let c := fg_coeffs g r in let N := gN g in
   ~ tau == 0 -> ~ theta == 0 -> ~ D c theta == 0 -> ~ D c 1 == 0 ->
-  ~ peval (phiS_p c (fg_phiS0 r)) theta == 0 ->
-  ~ peval (phiI_p c tau gam (fg_phiS0 r) fg_phiR0) theta + peval (phiR_p tau gam fg_phiR0) theta == 0 ->
-  ~ peval (u_p tau gam fg_phiR0) theta == 0 ->
+  ~ peval (phiS_p c (fg_phiS0 r)) theta == 0 -> ~ peval (u_p tau gam fg_phiR0) theta == 0 ->
   let e := dEBCM [theta; R] t N tau gam (fg_psihat g r) (fg_psihatPrime g r) (fg_phiS0 r) fg_phiR0 in
   veq (dSIR_compact_effective_degree (Phi_ced c N tau gam (fg_phiS0 r) fg_phiR0 theta R) t N tau gam)
       (DPhi_ced c N tau gam (fg_phiS0 r) fg_phiR0 theta (vnth 0 e) (vnth 1 e)) /\
   veq (g_dSIR_effective_degree (Phi_ed c N tau gam (fg_phiS0 r) fg_phiR0 theta R) t N (length c, length c) tau gam)
       (DPhi_ed c N tau gam (fg_phiS0 r) fg_phiR0 theta (vnth 0 e) (vnth 1 e)).
 Proof.
-  intros WG r c N Ht Hth Ha Hc Hx Hw Hu. cbv zeta.
+  intros WG r c N Ht Hth Ha Hc Hx Hu. cbv zeta.
   assert (H1 : ~ 1 == 0) by (intro H; discriminate H).
   pose proof (gN_nonzero g WG) as HN.
   split.
